@@ -5,6 +5,7 @@ import (
 	"errors"
 	"io"
 	"os"
+	"runtime"
 	"sync"
 	"time"
 
@@ -29,13 +30,20 @@ type faultSto struct {
 	sched  []byte
 	pos    int
 	faults int // failures injected so far
+	id     int
 	// slowErr: a failing enumerate closes its channel, then waits this long before it returns the error
 	slowErr time.Duration
 }
 
+var trace = os.Getenv("C13_TRACE") != ""
+
 func (f *faultSto) next() byte {
 	f.mu.Lock()
 	defer f.mu.Unlock()
+	if trace {
+		pc, _, _, _ := runtime.Caller(1)
+		defer func() { println("leaf", f.id, runtime.FuncForPC(pc).Name(), "call", f.pos-1, "faults", f.faults) }()
+	}
 	x := byte('n')
 	if f.pos < len(f.sched) {
 		x = f.sched[f.pos]
@@ -272,12 +280,23 @@ func (k *faultKV) CommitBatch(b sorted.BatchMutation) error {
 	return k.KeyValue.CommitBatch(b)
 }
 
-// ---- a files.VFS whose Stat can fail with a non-ENOENT error -------------------------------------------
+// ---- a files.VFS with one-shot failures -------------------------------------------------------------------
 
 type faultVFS struct {
 	files.VFS
 	mu       sync.Mutex
-	failStat int // the next n Stat calls fail with EIO
+	failStat int    // the next n Stat calls fail with EIO
+	failOp   string // one-shot: write sync close lstat rename tempfile mkdir
+}
+
+func (v *faultVFS) take(op string) bool {
+	v.mu.Lock()
+	defer v.mu.Unlock()
+	if v.failOp == op {
+		v.failOp = ""
+		return true
+	}
+	return false
 }
 
 func (v *faultVFS) Stat(name string) (os.FileInfo, error) {
@@ -291,4 +310,64 @@ func (v *faultVFS) Stat(name string) (os.FileInfo, error) {
 		return nil, &os.PathError{Op: "stat", Path: name, Err: errInjected}
 	}
 	return v.VFS.Stat(name)
+}
+
+func (v *faultVFS) Lstat(name string) (os.FileInfo, error) {
+	if v.take("lstat") {
+		return nil, &os.PathError{Op: "lstat", Path: name, Err: errInjected}
+	}
+	return v.VFS.Lstat(name)
+}
+
+func (v *faultVFS) Rename(o, n string) error {
+	if v.take("rename") {
+		return &os.LinkError{Op: "rename", Old: o, New: n, Err: errInjected}
+	}
+	return v.VFS.Rename(o, n)
+}
+
+func (v *faultVFS) MkdirAll(p string, perm os.FileMode) error {
+	if v.take("mkdir") {
+		return &os.PathError{Op: "mkdir", Path: p, Err: errInjected}
+	}
+	return v.VFS.MkdirAll(p, perm)
+}
+
+func (v *faultVFS) TempFile(dir, prefix string) (files.WritableFile, error) {
+	if v.take("tempfile") {
+		return nil, &os.PathError{Op: "open", Path: dir, Err: errInjected}
+	}
+	f, err := v.VFS.TempFile(dir, prefix)
+	if err != nil {
+		return nil, err
+	}
+	return &faultFile{WritableFile: f, v: v}, nil
+}
+
+type faultFile struct {
+	files.WritableFile
+	v *faultVFS
+}
+
+func (f *faultFile) Write(p []byte) (int, error) {
+	if f.v.take("write") {
+		n, _ := f.WritableFile.Write(p[:len(p)/2]) // a short write, then the error
+		return n, errInjected
+	}
+	return f.WritableFile.Write(p)
+}
+
+func (f *faultFile) Sync() error {
+	if f.v.take("sync") {
+		return errInjected
+	}
+	return f.WritableFile.Sync()
+}
+
+func (f *faultFile) Close() error {
+	if f.v.take("close") {
+		f.WritableFile.Close()
+		return errInjected
+	}
+	return f.WritableFile.Close()
 }
